@@ -222,6 +222,7 @@ class Lockstep:
             if parsed and parsed[2] == 3 and parsed[4] == spec.I_ID_RESPONSE:
                 hint["id_response_failed"] = spec_int(parsed[5])
         hint["registry_ids"] = set(after)
+        hint["registry_changed"] = after != before
         hint["presreq_failed"] = any((split_line(w) or (0,) * 6)[4] == spec.I_PRESENTATION for w in failed)
         node0 = after.get(0)
         hint["node0_recreated"] = node0 is not None and node0 != before.get(0)
